@@ -8,7 +8,7 @@ from .ctx import Ctx
 from .model import AnalysisError, FunctionInfo
 from .report import RuleResult
 from .terms import (Attr, Call, Comp, Const, DictT, Evaluator, Ext, Fmt, Ite, Loop, Op, helper_inline, Opaque, Outcome, Store, Sub, Sym, Template, Term,
-                    TupleT, alternatives, flat_guards, guards_repr, norm_guards, walk)
+                    TupleT, _State, alternatives, flat_guards, guards_repr, norm_guards, walk)
 from .util import all_terms, call_name, call_recv, method_calls
 
 
@@ -68,7 +68,22 @@ def N2(ctx: Ctx) -> RuleResult:
         raise AnalysisError('N2', 'no loop over reference groups found')
     lp = outer[0]
     it = lp.iter
-    if not (isinstance(it, Call) and call_name(it) in ('values', 'items') and call_recv(it) == table):
+    groups_ok = isinstance(it, Call) and call_name(it) in ('values', 'items') and call_recv(it) == table
+    if not groups_ok and isinstance(it, Sym) and it.name in fi.params():
+        # the groups are handed in by the caller: the expression validator must pass all of them (table.values())
+        vfi = c.methods.get('_check_expression')
+        if vfi is not None:
+            vps = vfi.params()
+            vouts = Evaluator(ctx.model, inline=lambda f, d: False).run(vfi, {vps[0]: self_t, vps[-1]: Sym('expr')}, self_cls=c)
+            for o in vouts:
+                for t in list(o.effects) + list(o.trace):
+                    for x in walk(t):
+                        if isinstance(x, Call) and call_name(x) == '_all_refs_same_type' and x.args:
+                            a = x.args[fi.params().index(it.name) - (1 if fi.kind != 'staticmethod' else 0)] if len(x.args) > 0 else None
+                            a = x.args[-1] if a is None else a
+                            if isinstance(a, Call) and call_name(a) == 'values' and isinstance(call_recv(a), Call) and 'reference_table' in repr(call_recv(a)):
+                                groups_ok = True
+    if not groups_ok:
         r.fail('_all_refs_same_type:groups', f'does not iterate all reference groups of the table: {it!r}', fi.where)
     inner: List[Loop] = []
     for pg, flow, binds, effs in lp.paths:
@@ -77,8 +92,29 @@ def N2(ctx: Ctx) -> RuleResult:
         if flow != 'end':
             r.fail('_all_refs_same_type:groups', 'the loop over groups can stop early', fi.where)
     if not inner:
-        r.fail('_all_refs_same_type:fold', 'no pass over the occurrences of a group', fi.where)
-        return r
+        # the same fold written with functools.reduce: reduce(step, <all occurrences>, <start>) with
+        # step(acc, ref) = ref.data_type.cast(acc)
+        ev_n = Evaluator(ctx.model, inline=helper_inline(('hpl.ast.predicates',), exclude=('_all_refs_same_type',)))
+        folded = False
+        for pg, flow, binds, effs in lp.paths:
+            for t in list(effs) + [v for _, v in binds]:
+                for x in walk(t):
+                    if isinstance(x, Call) and isinstance(x.func, Ext) and x.func.name.split('.')[-1] == 'reduce' and len(x.args) == 3:
+                        step, src, _start = x.args
+                        covers = any(isinstance(y, Sym) and y.name.startswith('each:') for y in walk(src)) and not any(isinstance(y, Sub) for y in walk(src))
+                        acc, ref = Sym('acc'), Sym('ref')
+                        res = ev_n.apply(step, (acc, ref), (), _State(), 0)
+                        if isinstance(res, Call) and call_name(res) == 'cast' and {call_recv(res), res.args[0] if res.args else None} == {acc, Attr(ref, 'data_type')} and covers and not pg:
+                            folded = True
+        if folded:
+            r.ok('running intersection over every occurrence (functools.reduce with step ref.data_type.cast(acc))')
+        else:
+            r.fail('_all_refs_same_type:fold', 'no pass over the occurrences of a group', fi.where)
+            return r
+        inner = []
+        good_pass_reduce = True
+    else:
+        good_pass_reduce = False
     good_pass = False
     for il in inner:
         src = il.iter
@@ -103,7 +139,9 @@ def N2(ctx: Ctx) -> RuleResult:
                 casts = method_calls(list(effs) + [v for _, v in binds], 'cast')
                 if casts:
                     r.fail('_all_refs_same_type:fold', f'occurrences are compared pairwise ({str(casts[0])[:80]}) instead of against the running intersection: compatibility is not transitive, three occurrences typed A, A|B, B pass although A and B clash', fi.where)
-    if good_pass:
+    if good_pass_reduce:
+        pass
+    elif good_pass:
         r.ok('running intersection over every occurrence (final_type = ref.data_type.cast(final_type))')
     else:
         r.fail('_all_refs_same_type:no-fold', 'no unconditional pass folds the running intersection over all occurrences of a group', fi.where)
@@ -128,7 +166,15 @@ def N4(ctx: Ctx) -> RuleResult:
     if not loops:
         raise AnalysisError('N4', '_get_reference_table: no traversal loop found')
     lp = loops[0]
-    full = isinstance(lp.iter, Call) and call_name(lp.iter) == 'iterate' and call_recv(lp.iter) == expr
+    src_it = lp.iter
+    pre_filter: List[Term] = []
+    if isinstance(src_it, Comp) and len(src_it.gens) == 1:
+        # the nodes are collected first (a comprehension over the traversal, possibly filtered), then grouped
+        pre_filter = list(src_it.gens[0][2])
+        src_it = src_it.gens[0][1]
+    while isinstance(src_it, Call) and isinstance(src_it.func, Ext) and src_it.func.name in ('list', 'tuple', 'iter') and len(src_it.args) == 1:
+        src_it = src_it.args[0]
+    full = isinstance(src_it, Call) and call_name(src_it) == 'iterate' and call_recv(src_it) == expr
     if full:
         r.ok('filled from expr.iterate(): every node of the expression is visited')
     elif lp.target == '<while>' and isinstance(lp.iter, TupleT) and lp.iter.items == (expr,):
@@ -144,6 +190,13 @@ def N4(ctx: Ctx) -> RuleResult:
         r.fail('_get_reference_table:walk', f'the table is not filled from a traversal of the whole expression: iterates {str(lp.iter)[:80]}', fi.where)
     # recorded: variables and accessors, each under its printed form; no other filter
     recorded = {'accessor': False, 'variable': False}
+    if pre_filter and any(any((isinstance(e, Call) and call_name(e) == 'append') or isinstance(e, Store) for e in effs) for _, _, _, effs in lp.paths):
+        for t in pre_filter:
+            for x in walk(t):
+                if isinstance(x, Attr) and x.name == 'is_accessor':
+                    recorded['accessor'] = True
+                if isinstance(x, Attr) and x.name == 'is_variable':
+                    recorded['variable'] = True
     for pg, flow, binds, effs in lp.paths:
         stores = [e for e in effs if (isinstance(e, Call) and call_name(e) in ('append', 'add')) or isinstance(e, Store)] + [c for c in effs if isinstance(c, Call) and call_name(c) == 'setdefault']
         adds = any((isinstance(e, Call) and call_name(e) == 'append') for e in effs) or any(isinstance(x, Call) and call_name(x) == 'append' for e in effs for x in walk(e))
